@@ -109,6 +109,9 @@ def gen_cases(ctx):
                 A[rng.randrange(m)][rng.randrange(k)] = qx.UNITS[rng.randrange(4)]
                 B[rng.randrange(k)][rng.randrange(n)] = qx.UNITS[rng.randrange(4)]
                 cases.append((f'unit-sample:{m}x{k}x{n}', A, B))
+    # long inner dimensions (sums over more than a cache panel of columns / rows): every term of the sum counts
+    for (m, k, n) in ([(2, 129, 1), (1, 200, 2), (2, 257, 2)] if ctx.quick() else [(2, 129, 1), (1, 200, 2), (2, 257, 2), (3, 385, 1), (1, 513, 1), (2, 65, 2), (1, 1000, 1)]):
+        cases.append((f'long-inner:{m}x{k}x{n}', qx.rand_int(rng, m, k, -3, 3), qx.rand_int(rng, k, n, -3, 3)))
     nrand = 300 if ctx.quick() else 5000
     for t in range(nrand):
         m, k, n = rng.randint(1, 4), rng.randint(1, 4), rng.randint(1, 4)
